@@ -150,6 +150,11 @@ func (c *diskCache) findMissingCasBlobsInternal(ctx context.Context, blobs []*pb
 			}
 			return errRequestCancelled
 		case <-waitCh: // Everything in the waitgroup has finished.
+			if cancelledDueToFailFast {
+				// The last proxyCheck to finish was a miss: both channels
+				// were ready and select picked this one.
+				return errMissingBlob
+			}
 		}
 	}
 
